@@ -74,7 +74,23 @@ pub fn strategy() -> BoxedStrategy<Case> {
                         }
                     }
                 })
-                .collect();
+                .collect::<Vec<HolderOp>>();
+            // claims with aliasing names ("a.b" next to a -> b, "list[0]" next to list -> [..]):
+            // present the nested spelling and then the dotted spelling on the same holder
+            let mut ops = ops;
+            if let Some(o) = issue.claims.as_object() {
+                let tree_ok = sdjwt_model::tree::mark(&issue.claims, &issue.strat).is_ok();
+                if tree_ok && o.contains_key("a.b") && o.get("a").map(|a| a.get("b").is_some()).unwrap_or(false) {
+                    let mk = |v: Value| HolderOp::Good { selection: v.as_object().cloned().unwrap(), kb: None };
+                    ops.push(mk(json!({"a": {"b": true}})));
+                    ops.push(mk(json!({"a.b": true})));
+                    ops.truncate(10);
+                } else if tree_ok && o.contains_key("list[0]") && o.get("list").map(|a| a.is_array()).unwrap_or(false) {
+                    let mk = |v: Value| HolderOp::Good { selection: v.as_object().cloned().unwrap(), kb: None };
+                    ops.push(mk(json!({"list": [true]})));
+                    ops.push(mk(json!({"list[0]": true})));
+                }
+            }
             C11Case::Holder { issue, ops }
         });
     prop_oneof![issuer, holder].boxed()
